@@ -93,3 +93,42 @@ func (te *taskEnv) execCall(c instrument.Call, op *Op, rec *OpRec) {
 	res.RetNil = got == nil
 	rec.Extra = res
 }
+
+// mutateSnapshot modifies everything a caller can reach through a snapshot.
+func mutateSnapshot(s tally.Snapshot) {
+	for k, v := range s.Counters() {
+		for tk := range v.Tags() {
+			v.Tags()[tk] = "mutated"
+		}
+		v.Tags()["extra"] = "x"
+		delete(s.Counters(), k)
+	}
+	for k, v := range s.Gauges() {
+		for tk := range v.Tags() {
+			v.Tags()[tk] = "mutated"
+		}
+		delete(s.Gauges(), k)
+	}
+	for k, v := range s.Timers() {
+		vals := v.Values()
+		for i := range vals {
+			vals[i] = -1
+		}
+		for tk := range v.Tags() {
+			v.Tags()[tk] = "mutated"
+		}
+		delete(s.Timers(), k)
+	}
+	for k, v := range s.Histograms() {
+		for b := range v.Values() {
+			v.Values()[b] = -5
+		}
+		for b := range v.Durations() {
+			v.Durations()[b] = -5
+		}
+		for tk := range v.Tags() {
+			v.Tags()[tk] = "mutated"
+		}
+		delete(s.Histograms(), k)
+	}
+}
